@@ -134,6 +134,31 @@ func checkC11(sc *Scenario, res *RunResult, t *Truth) []Violation {
 		complete := len(exp[rep])+8*len(t.ByRep[rep]) <= logLen
 		if v := checkLines("memory-log", rep, got, exp[rep], complete); v != nil {
 			vs = append(vs, *v)
+		} else if !complete {
+			// more was written than the log keeps: what is kept are the most recent lines, so
+			// per stream a gap-free suffix of what was written, and at least log_length lines
+			if len(got) < logLen && len(exp[rep]) >= logLen {
+				vs = append(vs, Violation{"C11", "memory-log-shorter-than-configured", "", fmt.Sprintf("%s wrote %d lines but its log (log_length %d) holds only %d", rep, len(exp[rep]), logLen, len(got)), 0})
+				continue
+			}
+			in := map[string]bool{}
+			for _, l := range got {
+				in[l] = true
+			}
+			for stream := 1; stream <= 2; stream++ {
+				seen := false
+				for _, e := range exp[rep] {
+					if e.stream != stream {
+						continue
+					}
+					if in[e.text] {
+						seen = true
+					} else if seen {
+						vs = append(vs, Violation{"C11", "memory-log-gap", "", fmt.Sprintf("%s: line %q (stream %d) is missing from the log although earlier lines of the stream are still there (log_length %d, %d lines written, %d kept)", rep, clipStr(e.text, 80), stream, logLen, len(exp[rep]), len(got)), 0})
+						break
+					}
+				}
+			}
 		}
 	}
 	// log files, once Run() has returned
@@ -201,10 +226,14 @@ func fileOwner(sc *Scenario, fname string) string {
 }
 
 // genOutput fills a launch with unique lines on both streams.
-func genOutput(r *R, s *simos.Script, proc string, launch int) {
+func genOutput(r *R, s *simos.Script, proc string, launch int, minLines int) {
 	n := Pick(r, 0, 1, 3, 8, 20, 60)
 	if r.P(50) {
 		n = r.Range(100, 300)
+	}
+	if minLines > 0 {
+		// enough lines to make the in-memory log drop its oldest ones several times
+		n = r.Range(minLines, minLines+250)
 	}
 	life := s.LifeMs
 	if life < 0 {
@@ -218,7 +247,11 @@ func genOutput(r *R, s *simos.Script, proc string, launch int) {
 		text := fmt.Sprintf("%s/%d/%d", proc, launch, i)
 		switch r.Intn(12) {
 		case 0:
-			text += "/" + strings.Repeat("x", Pick(r, 4096, 5000, 70000, 100000))
+			if minLines > 0 {
+				text += "/" + strings.Repeat("x", 200)
+			} else {
+				text += "/" + strings.Repeat("x", Pick(r, 4096, 5000, 70000, 100000))
+			}
 		case 1:
 			text += "  trailing spaces  "
 		case 2:
